@@ -15,6 +15,8 @@ Correspondence streams
                 (each node's event log is replayed through the model driver).
   e2e-history : (oracle) sequences of 4..10 packets on one internetwork whose caches start cold and
                 are never reset; every node log of it goes through e2e-node as well.
+  e2e-world   : the STATEFUL simulator Route.runWorld vs the whole real internetwork for single
+                packets in any cache state: exact global frame sequence, caches, parked packets.
   e2e-global  : deliveries of the whole internetwork vs `deliverAll` (warm caches and
                 global broadcasts; trees and cyclic topologies).
 Implementation-side oracle (independent of the model)
